@@ -235,6 +235,9 @@ func vC14Spec(server bool, limit int64, wire []byte) vC14Verdict {
 		if len(bs) >= 2 && bs[1]&127 == 127 {
 			v.saw64 = true
 		}
+		if len(bs) >= 1 && bs[0]&0x40 != 0 {
+			v.sawRsv1 = true // also when the header is incomplete or otherwise not a frame
+		}
 		switch st {
 		case vC14HEnd:
 			v.outcome = vC14OCut
